@@ -54,6 +54,14 @@ CHECKS = {
    technique="encode -> decode-to-text -> re-parse -> re-encode byte-equality monitor with first-differing-word witness, over the C06 generator restricted to the statement's domain",
    text="For every rule Build accepts, ToCommandLine must succeed, the printed text must be accepted by flags.Parse and Build and give byte-identical wire data, and decoding again must give the same text. Found six genuine defects (all repaired in /repo) and one recorded finding (arch filter not first is printed first; classified only when the images are equal up to exactly that move).",
    note="Trusted base: byte comparison and the independent decoder used to classify the one known permutation. Domain: shell-safe strings, watches that agree with the filesystem, amd64, resolveIds=false."),
+ "C13": dict(engine="rulegen", cat="exploration", ref="§5 C13",
+   technique="panic / hang / guard-page / per-call allocation monitors + structural post-condition over hostile Rule values, header-word boundary sweeps of wire images and mutated rule lines (ASan pass in thorough)",
+   text="Build, ToCommandLine and flags.Parse are driven with hostile inputs (each of the 260 header words of valid rules replaced by boundary values, truncations, wrap-around string lengths, syscall numbers across every mask-word boundary, nil/typed-nil/foreign rules, mutated lines). Monitors: recovered panics attributed to the input, a 30 s hang bound, inputs ending at a PROT_NONE page, TotalAlloc delta per call <= 64*len+1MiB in single-worker children under ulimit -v (a refused allocation is a fatal error attributed through in-flight slots), and 'ToCommandLine succeeded => field_count <= 64 and string lengths within buflen within the input'. Found and guards three repaired defects.",
+   note="Trusted base: Go runtime fault/alloc accounting, the independent decoder for the post-condition. Over-reads inside the slice's own capacity are visible only to the ASan pass."),
+ "C14": dict(engine="rulegen", cat="exploration", ref="§5 C14",
+   technique="argv-accounting oracle: grammar-generated argument vectors joined with the harness's own POSIX quoting, interpreted independently, compared with flags.Parse's result",
+   text="For each generated argv the harness itself decides 'must be rejected' (mixed delete/watch/syscall flags, both or neither of -a/-A, positional words, repeated -w/-a/-A, malformed -a/-p/-F/-C arguments, unknown flags, missing arguments) or computes the exact rule a faithful parse returns (every admissible reading of a filter's operator is accepted). A returned rule must equal it; an error is always acceptable. The repo's 112 real rule lines must be accepted faithfully.",
+   note="Trusted base: the harness's argv interpreter and quoting. Blanks around list items/filter parts are compared trimmed."),
 }
 
 NOT_YET = {
